@@ -14,8 +14,8 @@ site('pp.c', 'define', 'error', "'%s' is not a macro parameter name",
      T('pp', '#define M_(a) #b', "'b'"), T('pp', '#define M_(a, ...) a # __VA_ARG__', "'__VA_ARG__'"), T('pp', '#define M_() #x', "'x'"))
 site('pp.c', 'define', 'error', '__VA_ARGS__ can only be used in variadic function-like macros',
      T('pp', '#define M_(a) a __VA_ARGS__'), T('pp', '#define M_ 1 + __VA_ARGS__'),
-     T('pp', '#define M_(a) __VA_ARGS__', finding='C10-va-args-first-token', note='the first token of the replacement list is scanned before the loop that checks for __VA_ARGS__'),
-     T('pp', '#define M_ __VA_ARGS__', finding='C10-va-args-first-token'), T('pp', '#define M_() (__VA_ARGS__)'))
+     T('pp', '#define M_(a) __VA_ARGS__', note='regression (fixed 278d131): first token of the replacement list'),
+     T('pp', '#define M_ __VA_ARGS__'), T('pp', '#define M_() (__VA_ARGS__)'), n=2)
 site('pp.c', 'define', 'error', "redefinition of macro '%s'",
      T('pp', '#define M_ 1\n#define M_ 2', "'M_'"), T('pp', '#define M_(a) a\n#define M_(b) b', "'M_'"), T('pp', '#define M_ (1)\n#define M_() (1)', "'M_'"),
      T('pp', '#define M_ 1 + 2\n#define M_ 1+2', "'M_'"), T('pp', '#define M_(a) a\n#define M_(a, ...) a', "'M_'"))
@@ -71,8 +71,8 @@ site('scan.c', 'stringlit', 'error', 'null byte in string literal', T('expr', 's
 for cond in ('t->base->size||t->base->kind==TYPEARRAY', 't->kind==TYPEARRAY'):
     site('qbe.c', 'calcvla', 'assert', cond, J('internal', 'shape of variably modified types built by decl.c:declarator'))
 site('qbe.c', 'calcvla', 'error', "array of unspecified size '[*]' is only allowed in a function prototype",
-     T('bdecl', 'int (*p_)[*] = 0;', finding='C10-star-array-uninit', note='diagnosed only when malloc happens to return zeroed memory: mkarraytype leaves u.array.size uninitialised'),
-     T('expr', 'sizeof(int[*])', cg=True, finding='C10-star-array-uninit'))
+     T('bdecl', 'int (*p_)[*] = 0;', note='regression: mkarraytype left u.array.size uninitialised (heap-dependent crash)'),
+     T('expr', 'sizeof(int[*])', cg=True), T('bdecl', 'int a_[2][*];'))
 site('qbe.c', 'checklabels', 'error', "label '%s' is used but not defined",
      T('stmt', 'goto nolabel_;', "'nolabel_'"), T('stmt', 'if (h_v) goto nolabel_; else { int nolabel_; nolabel_ = 1; }', "'nolabel_'"),
      T('fdecl', 'void f_(void) { l_: ; } void g_(void) { goto l_; }', "'l_'"))
@@ -111,9 +111,9 @@ site('qbe.c', 'funcexpr', 'fatal', 'unimplemented declaration kind %d',
 site('qbe.c', 'funcexpr', 'fatal', 'unimplemented expression %d', J('internal', 'expression kinds'))
 site('qbe.c', 'funcjnz', 'assert', 't->prop&PROPSCALAR', J('internal', 'controlling expressions are checked by stmt.c'))
 site('qbe.c', 'funclval', 'error', 'expression is not an object',
-     T('expr', 'sv_.arr_ = 0', pre=PQ, cg=True, anyty=True), T('expr', 'sv_.arr_++', pre=PQ, cg=True, anyty=True), T('expr', 'sv_.arr_--', pre=PQ, cg=True, anyty=True),
-     T('expr', '(&sv_)->arr_ += 1', pre=PQ, cg=True, anyty=True, finding='C10-array-member-lvalue',
-       note='compound assignment to a member array is compiled: the decayed member keeps the lvalue flag and & strips the decay'), n=2)
+     J('internal', 'second line of defence: since df7da54 every expression that carries the lvalue flag is an identifier, a dereference, a member '
+                   'access, a string or a compound literal; non-lvalue operands of =, op=, ++, --, & are rejected in expr.c (templates there, '
+                   'incl. member arrays)'), n=2)
 site('qbe.c', 'funclval', 'error', "identifier '%s' is not an object or function",
      T('expr', 'h_v + ts_.a', "'ts_'", pre=PQ, cg=True), T('expr', '!ts_.arr_[1]', "'ts_'", pre=PQ, cg=True))
 site('qbe.c', 'funcstore', 'assert', '!lval.bits.before&&!lval.bits.after||tp&PROPINT', J('internal', 'bit-fields have integer type (checked in addmember)'))
@@ -125,8 +125,9 @@ site('qbe.c', 'funcstore', 'error', "cannot store to 'const' object",
 site('qbe.c', 'funcstore', 'error', 'volatile store is not yet supported',
      T('expr', 'vi_ = 1', pre=PQ, cg=True, gcc='documented unsupported feature (volatile-qualified types); valid C'),
      T('expr', 'vi_ += 1', pre=PQ, cg=True, gcc='documented unsupported feature (volatile-qualified types); valid C'),
-     T('expr', 'vi_++', pre=PQ, cg=True, gcc='documented unsupported feature (volatile-qualified types); valid C', finding='C10-volatile-incdec',
-       note='EXPRINCDEC stores with the qualifiers of the ++ expression (none), so the volatile test of funcstore never fires'),
+     T('expr', 'vi_++', pre=PQ, cg=True, gcc='documented unsupported feature (volatile-qualified types); valid C',
+       note='regression (fixed c0abecd): EXPRINCDEC stored with the qualifiers of the ++ node'),
+     T('expr', '--vi_', pre=PQ, cg=True, gcc='documented unsupported feature (volatile-qualified types); valid C'),
      T('expr', '*(volatile int *)ip_ = 1', pre=PQ, cg=True, gcc='documented unsupported feature (volatile-qualified types); valid C'))
 site('qbe.c', 'convert', 'error', 'long double is not yet supported',
      T('expr', 'h_v = (int)ld_', pre=PQ, cg=True, gcc='documented unsupported feature (long double); valid C'),
